@@ -166,6 +166,10 @@ pub fn compile(sc: &K16) -> KChild {
         _ => None,
     };
     let max_delay = sc.proc_delay_us.iter().copied().max().unwrap_or(0);
+    // every (re)connect costs the client up to two drawn frames (waiting screen, first frame of
+    // the session) with their processing delay, plus a poll or two: with a hundred sessions that
+    // is more than the closing margin below
+    t_total += sc.sessions.len() as u64 * (2 * max_delay + 40_000);
     let margin = (nlines + 30) * (70_000 + max_delay);
     let t_end = t_total + margin;
     let mut events = vec![];
